@@ -2,7 +2,7 @@
 """Regenerates MANIFEST.json from the table below (kept in one place so the file is always schema-valid)."""
 import json, subprocess
 
-NOTE = ("Each child process starts in one of six first-sight modes (cold / live alias values seen first / zero and typed-nil alias values seen first, each with or without user-installed package defaults); option spellings vary per case (build styles); in a quarter of the cases every harness-built stack has its mutex enabled and a process-wide lock watcher reports re-acquired and leaked locks. Trusted base: the Go toolchain, the VerifDump/verifPoint hooks (read-only accessor + three call sites in lock()/unlock()), "
+NOTE = ("Each child process starts in one of six first-sight modes (cold / live alias values seen first / zero and typed-nil alias values seen first, each with or without user-installed package defaults); option spellings vary per case (build styles); in a quarter of the cases every harness-built stack has its mutex enabled and a process-wide lock watcher reports re-acquired and leaked locks. In one case of sixteen of the single-goroutine monitors two bystander goroutines question private values of their own while the case runs; harness-built stacks also come with a past (emptied again, or constructed next to a released sibling whose kept handle stays in use) and with several spellings of 'no capacity'. Trusted base: the Go toolchain, the VerifDump/verifPoint hooks (read-only accessor + three call sites in lock()/unlock()), "
         "and the reference model written in /verif/harness/mon from the property statement. Verdict covers only the executions produced.")
 
 P = {
@@ -46,8 +46,8 @@ P = {
    text="Exploration: all {set,clear,toggle} x option sequences of length <=3 / <=4 from several start states (Stacks: 8 options, Conditions: 4 setters) plus 100k / 5M random 30-call sequences mixing every string-valued setting, log levels, auxiliary map and the FIFO latch.", ref="2 C18"),
  "C19": dict(tech="runtime monitor: exhaustive nil/non-nil patterns against the filter-non-nil oracle, result-shape classifier with per-pattern pinned known outcomes",
    text="Exploration: all patterns of length <=10 / <=12 x 3 scan limits x 4 index-option sets, 30k / 2M random long patterns (incl. long nil runs under explicit limits above 50) and 30k / 2M random nested trees; every wrong result is classified by shape. The truncation defect (finding defrag:truncation) is recorded, everything else is a violation.", ref="2 C19"),
- "C20": dict(tech="runtime monitor: before/after live descriptions with node identity; leaf-sequence, unwrapped-normal-form, depth and protected-node oracles; lock-point hook detecting re-entrant acquisition and leaked locks",
-   text="Exploration: all single-child chains of length <=4 / <=5 over kind x parenthetical with three endings (33k / 333k) plus 200k / 10M random chain-biased trees with Conditions, aliases, empty stacks and mutex-enabled nodes; Reveal applied twice, five oracles per application.", ref="2 C20"),
+ "C20": dict(tech="runtime monitor: before/after live descriptions with node identity; leaf-sequence, unwrapped-normal-form, depth and protected-node oracles; lock-point hook detecting re-entrant acquisition and leaked locks; concurrent phase with a wait-for graph over the lock events as deadlock verdict",
+   text="Exploration: all single-child chains of length <=4 / <=5 over kind x parenthetical with three endings (33k / 333k) plus 200k / 10M random chain-biased trees with Conditions, aliases, empty stacks and mutex-enabled nodes; Reveal applied twice, five oracles per application. Concurrent phase (99 / ~5 000 runs of 3 000 / 20 000 rounds): Reveal loops on a mutex-enabled stack against push+pop / remove / reset / insert / reverse / swap of envelopes and against child.Transfer(parent), with private Reveals alongside; no panic, no deadlock (wait-for graph), every envelope returns with its leaf, the fixed part survives in order.", ref="2 C20"),
 }
 
 NOT_BUILT = "check not built yet in this session (planned; see DESIGN.md section 2)"
